@@ -319,5 +319,8 @@ def run(chk, repo):
     from rules.shared import w2f_scan_complete
     chk.clauses.append('C09.j (shared R-COVER) every tryptophan of a peptide, the last residue included, gets its W>F candidate')
     w2f_scan_complete(chk, repo, 'C09.j')
+    from rules.shared import options_live
+    chk.clauses.append('C09.k (shared R-OPTION) every option callAltTranslation itself defines is read by its code: none silently falls back to a library default')
+    options_live(chk, repo, 'C09.k', 'cli.call_alt_translation:add_subparser_call_alt_translation', 'cli.call_alt_translation:call_alt_translation', ('cli.call_alt_translation', 'cli.common'), floor=3)
 
 
